@@ -106,6 +106,7 @@ def sensitivity(only=None):
                 out = q.stdout.decode()
                 if q.returncode == 1 and 'VIOLATION property=' + prop in out:
                     caught.append(prop)
+                    break        # one check that reports it is enough
             print(f'{sid}: breaks {meta["property"]}; caught by {caught or "NOTHING"}')
             if not caught:
                 missed.append(sid)
